@@ -833,6 +833,61 @@ fn gen_e2e_probe(seed: u64, index: u64) -> Probe {
     Probe { z, q, qt, soa, rc, answers, nsecs, upper: 0, family: "e2e", e2e: Some(note), referral }
 }
 
+
+// ---------------------------------------------------------------- fixed cases: the witnesses of Props.v on the real code
+
+const FIXED_BASE: u64 = 3 << 40;
+
+fn nm(s: &str) -> Nm {
+    // "a.b.e." -> [e, b, a]
+    let mut v: Nm = s.trim_end_matches('.').split('.').filter(|l| !l.is_empty()).map(|l| l.as_bytes().to_vec()).collect();
+    v.reverse();
+    v
+}
+
+fn fixed_probes() -> Vec<Probe> {
+    let apex_t = vec![T_NS, T_SOA];
+    let zone = |rrs: Vec<(&str, Vec<u16>)>| {
+        let mut v: Vec<(Nm, Vec<u16>)> = vec![(nm("e."), apex_t.clone())];
+        v.extend(rrs.into_iter().map(|(n, t)| (nm(n), t)));
+        v.sort_by(|a, b| canon_cmp(&a.0, &b.0));
+        Zone { apex: nm("e."), rrs: v }
+    };
+    let pick = |z: &Zone, owners: &[&str]| -> Vec<NsecRec> {
+        let ch = z.chain();
+        owners.iter().map(|o| ch.iter().find(|r| r.owner == nm(o)).expect("owner in chain").clone()).collect()
+    };
+    let wild = |q: &str, l: u8| vec![Ans { name: nm(q), secure: true, rrsig: None }, Ans { name: nm(q), secure: true, rrsig: Some(l) }];
+    let mut v = vec![];
+    let mut add = |z: Zone, q: &str, qt: u16, soa: bool, rc: Rc, answers: Vec<Ans>, owners: &[&str], family: &'static str| {
+        let nsecs = pick(&z, owners);
+        let soa = if soa { Some(z.apex.clone()) } else { None };
+        v.push(Probe { z, q: nm(q), qt, soa, rc, answers, nsecs, upper: 0, family, e2e: None, referral: false });
+    };
+    // soundness witnesses (Props.v C08_sound_refuted_*): expected Secure, claim false
+    add(zone(vec![("a.e.", vec![T_NS])]), "b.a.e.", T_CNAME, true, Rc::NxDomain, vec![], &["a.e."], "fixed-unsound");
+    add(zone(vec![("a.a.e.", vec![T_TXT])]), "a.e.", T_A, true, Rc::NxDomain, vec![], &["e."], "fixed-unsound");
+    add(zone(vec![("*.e.", vec![T_A]), ("c.e.", vec![T_A])]), "a.b.e.", T_A, false, Rc::NxDomain, vec![], &["*.e."], "fixed-unsound");
+    add(zone(vec![("*.e.", vec![T_A]), ("b.e.", vec![T_A]), ("c.e.", vec![T_A])]), "a.b.e.", T_A, false, Rc::NoError, wild("a.b.e.", 1), &["b.e."], "fixed-unsound");
+    add(zone(vec![("*.e.", vec![T_TXT]), ("a.e.", vec![T_A])]), "b.*.e.", T_A, true, Rc::NoError, vec![], &["*.e."], "fixed-unsound");
+    // completeness witnesses (C08_complete_refuted_*): whole chain, claim true, expected Bogus
+    add(zone(vec![("a.a.e.", vec![T_TXT])]), "a.e.", T_A, true, Rc::NoError, vec![], &["e.", "a.a.e."], "fixed-rejected");
+    add(zone(vec![("*.e.", vec![T_A]), ("c.e.", vec![T_A])]), "b.e.", T_A, false, Rc::NoError, wild("b.e.", 1), &["e.", "*.e.", "c.e."], "fixed-rejected");
+    add(zone(vec![("*.e.", vec![T_A])]), "a.b.e.", T_A, false, Rc::NoError, wild("a.b.e.", 1), &["e.", "*.e."], "fixed-rejected");
+    add(zone(vec![("*.e.", vec![T_TXT])]), "b.*.e.", T_A, true, Rc::NxDomain, vec![], &["e.", "*.e."], "fixed-rejected");
+    // accepted and true (the Examples of Props.v): chain e. -> *.e. -> a.a.e. -> b.e. -> e.
+    let zex = || zone(vec![("*.e.", vec![T_A]), ("b.e.", vec![T_A]), ("a.a.e.", vec![T_TXT])]);
+    add(zex(), "b.e.", T_TXT, true, Rc::NoError, vec![], &["b.e."], "fixed-accepted");
+    add(zex(), "c.b.e.", T_A, true, Rc::NxDomain, vec![], &["b.e."], "fixed-accepted");
+    add(zex(), "x.0.e.", T_A, false, Rc::NoError, wild("x.0.e.", 1), &["b.e.", "*.e."], "fixed-accepted");
+    add(zex(), "c.e.", T_TXT, true, Rc::NoError, vec![], &["b.e.", "*.e."], "fixed-accepted");
+    // C08_sound_refuted_foreign_soa_name: the SOA owner name is the next name of the NSEC, not the apex
+    let zs = zone(vec![("a.e.", vec![T_A]), ("s.e.", vec![T_A]), ("w.s.e.", vec![T_A])]);
+    let nsecs = pick(&zs, &["a.e."]);
+    v.push(Probe { z: zs, q: nm("w.s.e."), qt: T_A, soa: Some(nm("s.e.")), rc: Rc::NxDomain, answers: vec![], nsecs, upper: 0, family: "fixed-foreign-soa", e2e: None, referral: false });
+    v
+}
+
 // ---------------------------------------------------------------- Coq rendering
 
 fn enc_name(out: &mut Vec<u8>, n: &Nm) {
@@ -851,7 +906,20 @@ fn enc_types(out: &mut Vec<u8>, t: &[u16]) {
 }
 
 fn case(seed: u64, index: u64) -> CaseOut {
-    let p = if index >= E2E_BASE { gen_e2e_probe(seed, index) } else { gen_probe(seed, index) };
+    let p = if index >= FIXED_BASE {
+        fixed_probes().into_iter().nth((index - FIXED_BASE) as usize).expect("fixed case index")
+    } else if index >= E2E_BASE {
+        gen_e2e_probe(seed, index)
+    } else {
+        gen_probe(seed, index)
+    };
+    let fixed_expect = match p.family {
+        "fixed-unsound" => Some((1u8, false)),
+        "fixed-rejected" => Some((0u8, true)),
+        "fixed-accepted" => Some((1u8, true)),
+        "fixed-foreign-soa" => Some((1u8, false)),
+        _ => None,
+    };
     let obs = run_real(&p.q, p.qt, &p.soa, p.rc, &p.answers, &p.nsecs, p.upper);
     // oracle: applicable when the hypotheses of the soundness statement hold
     let soa_ok = p.soa.is_none() || p.soa.as_ref() == Some(&p.z.apex);
@@ -882,6 +950,16 @@ fn case(seed: u64, index: u64) -> CaseOut {
             }
         ));
         known = kclass.map(|s| s.to_string());
+    }
+    if let Some((want_obs, want_claim)) = fixed_expect {
+        // the witnesses of Props.v must behave on the real code as the theorems say of the model
+        if oracle_fail.is_none() && (obs != want_obs || claim != want_claim || applicable == (p.family == "fixed-foreign-soa")) {
+            oracle_fail = Some(format!(
+                "fixed witness no longer behaves as recorded: expected {} with claim {}, got {} with claim {}",
+                ["Bogus", "Secure"][want_obs as usize], want_claim, ["Bogus", "Secure", "other", "panic"][obs as usize], claim
+            ));
+            known = None;
+        }
     }
     let mut e2e_path = "";
     if let Some(note) = &p.e2e {
@@ -1000,6 +1078,9 @@ fn main() {
         return;
     }
     let mut cases = vec![];
+    for k in 0..fixed_probes().len() as u64 {
+        cases.push(case(args.seed, FIXED_BASE + k));
+    }
     for index in 0..args.n {
         cases.push(case(args.seed, index));
     }
